@@ -56,6 +56,16 @@ CLAIMED = {
         "level": "For each of the 29 message builders the encoder/decoder layout agreement is decided for ALL field values at once (formats, offsets, byte order, signedness, payload slices, record loops), acceptance by exactly the own handler class, reply-addressing orientation (SRCCN/DESCN swap), unambiguity conditions of the framing regex, HELLO/FILES text parts (FILES: all 895 shipped platform x cfg x log names), latin-1 codec at every encode/decode site. Two genuine defects repaired (fix: commits), two recorded (SETWC/WCREQ accepted by no handler).",
         "note": "Trusted: vlib.symbytes model of struct.pack/unpack, re._parser. NOT decided: truncated/malformed datagrams, out-of-range field values, identifiers containing framing tags.",
     },
+    "C08": {
+        "technique": "lifecycle relation extracted from the event switch via CFG guard atoms; invariant rules on every extracted row (single-site, guard, dominance, atomic test-and-set); inter-procedural may-raise analysis over the call graph for facade-exists-at-teardown; nullness dataflow for the reset post-condition; interpretation of to_string",
+        "level": "Invariants of the statement checked on every edge of the relation extracted from today's source: CONNECTED only at the single CONNECTION_FINISHED site with a facade built under SPA_READY after a complete connect; READY announced exactly there; every TEARDOWN is an atomic test-and-set on CONNECTED; no teardown trigger after the facade was dropped (defect found and repaired); STARTED/FINISHED bracketed by try/finally; reset post-condition on every normal path; status sensor updated after the switch and before the client callback; to_string total and injective on the named states.",
+        "note": "NOT decided: closure of the reachable (state, facade, spa, descriptors, sensors) set under events raised concurrently from different tasks - that needs a model checker (other family).",
+    },
+    "C09": {
+        "technique": "structural necessary conditions only: exception-containment rule on the reconnect driver's loop, link-by-link recovery-chain rule on the extracted lifecycle relation and the driver's trigger guards, guard rule on the ping loop's no-response raise",
+        "level": "Decides three necessary conditions and nothing temporal: (R1) the reconnect driver cannot be terminated by an exception [today violated - 2 known findings, reproduced]; (R2) each error state has a recovery edge and reset/locate/connect triggers line up [ERROR_SPA_NOT_FOUND has none - known finding]; (R3) an unanswered spa is reported from CONNECTED. Breaking any of them breaks self-healing; holding them does not prove it.",
+        "note": "NOT decided - and not decidable by a static argument in reach: that recovery happens, within which bounded (virtual) time, after which fault scripts, and that the facade's values mirror the spa afterwards. Those clauses are the headline of the property and remain unverified here.",
+    },
 }
 
 NOT_APPLICABLE = {f"C{n:02d}": PENDING for n in range(1, 21) if f"C{n:02d}" not in CLAIMED}
